@@ -407,12 +407,17 @@ def _only_int_tags_differ(a, b):
     return blank(a) == blank(b)
 
 
-def run(ctx):
+def run(ctx, specs=None, group_seeds=None, thread_seeds=None, batch=None):
+    """C17's sweep by default; other checks (C09) run a small instance: their own programs, one
+    group of rank interpreters, one all-threads interpreter"""
     from .. import common
     nprog = 600 if ctx.thorough else 100
     timeout = 120.0
-    specs = programs(ctx.seed, nprog, None if ctx.thorough else 12)
-    sock = str(ctx.scratch / "c17dist.sock")
+    if specs is None:
+        specs = programs(ctx.seed, nprog, None if ctx.thorough else 12)
+    GROUP_SEEDS = group_seeds if group_seeds is not None else globals()["GROUP_SEEDS"]      # noqa: N806
+    THREAD_SEEDS = thread_seeds if thread_seeds is not None else globals()["THREAD_SEEDS"]  # noqa: N806
+    sock = str(ctx.scratch / f"c17dist-{os.getpid()}.sock")
     listener = Listener(sock, family="AF_UNIX")
     env0 = dict(os.environ)
     env0["PYTHONPATH"] = str(common.VERIF) + os.pathsep + env0.get("PYTHONPATH", "")
@@ -554,7 +559,7 @@ def run(ctx):
         if len(ctx.samples) < 14 and idx % 37 == 0:
             ctx.sample({"c17_dist_program": idx, "nranks": spec["nranks"], "tags": spec["tags"],
                         "rank0_summary_head": {k: base[0][1][k] for k in ("nparts", "overall_output_names", "tag_table")}})
-    ctx.note_batch("distributed-partition-and-tags-across-hash-seeds", n_cases, n_dis, exhaustive=False,
+    ctx.note_batch(batch or "distributed-partition-and-tags-across-hash-seeds", n_cases, n_dis, exhaustive=False,
                    nontrivial=n_cases, runs=labels, rank_summaries_compared=n_rank_summaries,
                    programs_with_part_codegen=sum(1 for sp in specs if sp.get("c17_codegen")),
                    part_kernels_compared=n_kernels,
@@ -563,7 +568,7 @@ def run(ctx):
                        "interpreters with different PYTHONHASHSEEDs; all ranks in one interpreter per seed); "
                        "canonical per-rank summaries and tag tables compared byte for byte")
     ctx.assumptions.append(
-        "C17 distributed part: the hub forwards pickled collective payloads unchanged; allreduce combines in rank "
+        "ranks in separate interpreters: the hub forwards pickled collective payloads unchanged; allreduce combines in rank "
         "order on every rank (MPI may use another order for a commutative op)")
 
 
